@@ -80,6 +80,53 @@ FALSY_TABLES = {
     'levels': 'level 0 is false',
     'level_of_var': 'level 0 is false',
 }
+# Optional arguments for which a falsy value is legitimate AND means
+# something else than the absent argument, as far as a property is
+# concerned (reviewed on the pinned tree: all 44 optional parameters in the
+# scopes of the properties).  Key: (function name, parameter).
+FALSY_RELEVANT = {
+    ('add_var', 'level'): 'level 0 is a level; treated as absent the '
+                          'variable goes to the bottom instead',
+    ('_check_var', 'level'): 'level 0 is a level; treated as absent a '
+                             'conflicting re-declaration at level 0 is '
+                             'accepted',
+    ('_next_free_level', 'level'): 'level 0 is a level; treated as absent '
+                                   'the next bottom level is returned',
+    ('count', 'nvars'): '`nvars=0` must be refused for a function with a '
+                        'non-empty support; treated as absent it is '
+                        'replaced by the size of the support',
+    ('collect_garbage', 'roots'): 'an empty collection of roots means '
+                                  '"collect nothing" (swap passes the set '
+                                  'of nodes it orphaned, which may be '
+                                  'empty); treated as absent every '
+                                  'unreferenced node is collected, also '
+                                  'those the per-level index of a running '
+                                  'reordering still lists',
+}
+# reviewed, and conflation does not touch a property (one line each)
+FALSY_NEUTRAL = {
+    ('pick', 'care_vars'): 'an empty care set and the default both yield '
+                           'assignments with the stated properties',
+    ('pick_iter', 'care_vars'): 'as for pick',
+    ('copy_bdd', 'cache'): 'an empty memo replaced by a new empty memo: '
+                           'sharing between calls is lost, results are '
+                           'not',
+    ('apply', 'v'): '0 is not a reference',
+    ('apply', 'w'): '0 is not a reference',
+    ('assert_operator_arity', 'v'): '0 is not a reference',
+    ('assert_operator_arity', 'w'): '0 is not a reference',
+    ('dump', 'filetype'): 'the empty string is not a file type',
+    ('dump', 'roots'): 'the stored roots are the given ones either way',
+    ('_dump_bdd', 'roots'): 'as for dump',
+    ('swap', 'all_levels'): 'an empty index is not a valid argument',
+    ('_image', 'umap'): 'an empty renaming renames nothing',
+    ('_image', 'vmap'): 'an empty renaming renames nothing',
+    ('__init__', 'levels'): 'no variables either way',
+    ('__init__', 'dvars'): 'no variables either way',
+    ('reorder', 'order'): 'an empty order is valid only for a manager '
+                          'without variables',
+    ('reorder', 'var_order'): 'as for order',
+}
 EMPTY_CALLS = {'set', 'dict', 'list', 'tuple', 'frozenset'}
 
 
@@ -116,7 +163,7 @@ def r_falsy(P, R):
             continue
         fn = f.node
         opt = optional_params(fn)
-        got = set()
+        got = dict()
         for n in au.walk_no_defs(fn):
             if isinstance(n, ast.Assign) and isinstance(
                     n.value, ast.Call) and len(
@@ -124,11 +171,19 @@ def r_falsy(P, R):
                             n.targets[0], ast.Name):
                 c = n.value
                 nm = au.call_name(c)
-                if (nm == 'get' and len(c.args) == 1) or (
-                        nm == 'next' and len(c.args) == 2 and isinstance(
-                            c.args[1], ast.Constant)
-                        and c.args[1].value is None):
-                    got.add(n.targets[0].id)
+                if nm == 'get' and len(c.args) == 1 and isinstance(
+                        c.func, ast.Attribute):
+                    ch = au.chain(c.func.value) or ['?']
+                    got[n.targets[0].id] = (
+                        '`.get(key)`', FALSY_TABLES.get(ch[-1]))
+                elif nm == 'next' and len(c.args) == 2 and isinstance(
+                        c.args[1], ast.Constant) and \
+                        c.args[1].value is None:
+                    got[n.targets[0].id] = (
+                        '`next(iterator, None)`',
+                        'the default exists to tell "no element" from an '
+                        'element; an element that is empty or 0 (the '
+                        'empty assignment of a constant) is false')
         n_opt += len(opt)
         n_get += len(got)
         for t, node in truth_contexts(fn):
@@ -139,22 +194,39 @@ def r_falsy(P, R):
                     n_idiom += 1
                     continue
                 if t.id in opt:
+                    why = FALSY_RELEVANT.get((f.name, t.id))
+                    if why is None:
+                        # conflating an empty / zero argument with the
+                        # absent one changes behaviour, but whether it
+                        # touches the property was not reviewed for this
+                        # parameter (or was, and it does not)
+                        R.undecided(
+                            'R-FALSY', f.qualname,
+                            f'optional argument `{t.id}` tested by '
+                            f'truthiness in `{au.short(node, 50)}`',
+                            FALSY_NEUTRAL.get(
+                                (f.name, t.id),
+                                'parameter not in the reviewed table'))
+                        continue
                     R.violation(
                         'R-FALSY', 'optional-argument', f.qualname, t.id,
                         f'`{au.short(node, 60)}` tests the optional '
-                        f'argument `{t.id}` by truthiness: 0, an empty set '
-                        'or an empty dictionary is a legitimate value and '
-                        'is treated like the absent argument (every other '
-                        'test of an optional argument in the package is '
-                        '`is None`)', unit=f.unit.rel, line=node.lineno)
+                        f'argument `{t.id}` by truthiness: {why}',
+                        unit=f.unit.rel, line=node.lineno)
                 else:
+                    kind, why = got[t.id]
+                    if why is None:
+                        R.undecided(
+                            'R-FALSY', f.qualname,
+                            f'lookup result `{t.id}` tested by truthiness',
+                            'values of this container not typed')
+                        continue
                     R.violation(
                         'R-FALSY', 'lookup-result', f.qualname, t.id,
                         f'`{au.short(node, 60)}` tests the result of a '
-                        f'`.get(...)` / `next(..., None)` (`{t.id}`) by '
-                        'truthiness: a found value that is 0 or empty '
-                        '(level 0, the empty assignment) is treated as not '
-                        'found', unit=f.unit.rel, line=node.lineno)
+                        f'{kind} (`{t.id}`) by truthiness: {why}, and is '
+                        'treated as not found', unit=f.unit.rel,
+                        line=node.lineno)
                 continue
             why = None
             if _reord.level_valued(t):
